@@ -29,6 +29,15 @@ ASSUMPTIONS = [A["A1"], A["A2"], A["A3"], A["A5"], A["A7"], A["ENGINE"],
 LIFTERS = []
 
 WITNESSES = {
+ "F23-default-reaching-a-nested-output-type": r'''
+from graphql import build_schema, validate_schema
+for sdl in ("type Obj { x: Int } input In { o: Obj } type Query { f(arg: In = { o: {x: 1} }): Int }",
+            "type Obj { x: Int } input In { o: [Obj] } type Query { f(arg: In = { o: [{x: 1}] }): Int }",
+            "interface I { x: Int } input In { o: I } type Query { f(arg: In = { o: 1 }): Int }",
+            "union U = Query input In { o: U! } type Query { f(arg: [In] = { o: 1 }): Int }"):
+    errs = validate_schema(build_schema(sdl))
+    assert errs and any("must be Input Type" in e.message for e in errs), errs
+''',
  "F5a-default-of-non-input-type": r'''
 from graphql import build_schema, validate_schema, graphql_sync
 for sdl in ['type Query { g(x: Query = 1): Int }', 'input I { x: Query = 1 } type Query { f(i: I): Int }',
@@ -112,12 +121,83 @@ print("COPY " + json.dumps(bad))
 '''
 
 
+ZOO_CHECK = r'''
+import itertools, json
+from graphql import build_schema, validate_schema, GraphQLError
+# every kind of type in every kind of position, with and without default values that mention it:
+# validate_schema must return errors (never raise) for each combination
+TYPES = {"Obj": "type Obj { x: Int }", "Ifc": "interface Ifc { x: Int }", "Un": "union Un = Query",
+         "En": "enum En { A B }", "Sc": "scalar Sc", "In": "input In { x: Int }", "In1": "input In1 @oneOf { a: Int b: String }",
+         "Missing": ""}
+DEFAULTS = ["", " = 1", " = {x: 1}", " = [{x: 1}]", " = null", " = A", " = {a: 1, b: \"s\"}", " = {o: {x: 1}}", " = $v"]
+WRAPS = ["%s", "%s!", "[%s]", "[%s!]!"]
+bad = None
+n = 0
+for tname, tdef in TYPES.items():
+    for wrap in WRAPS:
+        t = wrap % tname
+        for d in DEFAULTS:
+            sdls = [
+                f"{tdef} type Query {{ f(arg: {t}{d}): Int }}",
+                f"{tdef} input Holder {{ o: {t}{d} }} type Query {{ f(arg: Holder): Int }}",
+                f"{tdef} input Holder {{ o: {t} }} type Query {{ f(arg: Holder{d}): Int }}",
+                f"{tdef} input Holder {{ o: {t} }} input Outer {{ h: [Holder]{d} }} type Query {{ f(arg: Outer = {{h: [{{o: 1}}]}}): Int }}",
+                f"{tdef} directive @dir(a: {t}{d}) on FIELD type Query {{ f: {t} }}",
+                f"{tdef} interface J {{ g(a: {t}{d}): {t} }} type Query implements J {{ g(a: {t}): {t} }}",
+            ]
+            for sdl in sdls:
+                n += 1
+                try:
+                    schema = build_schema(sdl)
+                except GraphQLError:
+                    continue        # SDL that does not build (unknown type, bad literal syntax)
+                except Exception as e:
+                    if tname == "Missing":
+                        continue
+                    bad = {"sdl": sdl, "observed": f"build_schema raised {type(e).__name__}: {e}"}
+                    break
+                try:
+                    errs = validate_schema(schema)
+                    assert isinstance(errs, list) and all(isinstance(e, GraphQLError) for e in errs)
+                except Exception as e:
+                    bad = {"sdl": sdl, "observed": f"validate_schema raised {type(e).__name__}: {e}"}
+                    break
+            if bad:
+                break
+        if bad:
+            break
+    if bad:
+        break
+print("ZOO " + json.dumps(bad) + f" ({n} schemas)")
+'''
+
+
 def bounded_checks(tier, seed):
+    out = _copy_check()
+    import json
+    rc, outp = run_native(ZOO_CHECK, timeout=900)
+    res, ok = None, False
+    for line in outp.splitlines():
+        if line.startswith("ZOO "):
+            res, ok = json.loads(line[4:line.rindex(" (")]), True
+    if not ok:
+        raise RuntimeError(outp[-600:])
+    out.append({"id": "C20/bounded/type-position-default-zoo",
+                "function": "validate_schema (validate_default_value -> validate_input_literal / validate_input_value)",
+                "tool": "validate_schema over generated SDL schemas must return errors, never raise; native",
+                "bound": "8 kinds of type x 4 wrappers x 9 default literals x 6 positions (argument, input field, holder "
+                         "default, nested list default, directive argument, interface field argument) = 1728 SDL texts",
+                "failed": res is not None, "input": res, "output": outp[-800:]})
+    return out
+
+
+def _copy_check():
     """Validation results are cached on the schema object and schemas are copied through to_kwargs()
     (extend_schema, lexicographic_sort_schema, GraphQLSchema(**kwargs)): a copy must be validated like
     the original - BOUNDED: 10 SDL schemas (valid and invalid in different ways), copied before and
     after the original was validated."""
     import json
+    tier, seed = "quick", 0
     rc, outp = run_native(COPY_CHECK)
     res, ok = None, False
     for line in outp.splitlines():
